@@ -11,6 +11,7 @@ import (
 
 	"verifharness/internal/exact"
 	"verifharness/internal/gen"
+	"verifharness/internal/kf"
 	"verifharness/internal/stats"
 )
 
@@ -1121,7 +1122,90 @@ func sameOutputs(a, b []orb.Geometry) error {
 // lastCut reports (for statistics only) whether some ring of the last checked case was cut.
 var lastCut, lastNil bool
 
+// knownUnderflowKey: known finding of C08 - clip's intersect() multiplies a coordinate difference of
+// the segment by the distance from a segment end to the box edge BEFORE dividing; when that product
+// is non-zero and below 2^-1000 it underflows to a subnormal (relative error up to 100 %) and the
+// intersection point is garbage (a ring vertex far outside the box).
+const knownUnderflowKey = "clip-intersect-product-underflow"
+
+// underflowFamily is the input family of that finding, computed on the coordinates the library
+// sees: for some segment of a ring or line of g (closing segment included) there are an
+// x-quantity qx and a y-quantity qy, both non-zero, with qx*qy < 2^-1000, where the x-quantities
+// of a segment a->b are |b0-a0|, |a0-e|, |b0-e| for both box edges e of that axis and the box
+// width (the last three stand for the intermediate vertices Sutherland-Hodgman and
+// Cohen-Sutherland create on the edge lines), and the y-quantities likewise.
+func underflowFamily(box orb.Bound, g orb.Geometry) bool {
+	const lim = 0x1p-1000
+	seg := func(a, b orb.Point) bool {
+		var q [2][]float64
+		for d := 0; d < 2; d++ {
+			q[d] = []float64{math.Abs(b[d] - a[d]), math.Abs(a[d] - box.Min[d]), math.Abs(a[d] - box.Max[d]),
+				math.Abs(b[d] - box.Min[d]), math.Abs(b[d] - box.Max[d]), box.Max[d] - box.Min[d]}
+		}
+		for _, x := range q[0] {
+			if x == 0 {
+				continue
+			}
+			for _, y := range q[1] {
+				if y != 0 && x*y < lim {
+					return true
+				}
+			}
+		}
+		return false
+	}
+	path := func(ps []orb.Point, closed bool) bool {
+		for i := 0; i+1 < len(ps); i++ {
+			if seg(ps[i], ps[i+1]) {
+				return true
+			}
+		}
+		return closed && len(ps) > 1 && seg(ps[len(ps)-1], ps[0])
+	}
+	switch v := g.(type) {
+	case orb.LineString:
+		return path(v, false)
+	case orb.Ring:
+		return path(v, true)
+	case orb.MultiLineString:
+		for _, l := range v {
+			if path(l, false) {
+				return true
+			}
+		}
+	case orb.Polygon:
+		for _, r := range v {
+			if path(r, true) {
+				return true
+			}
+		}
+	case orb.MultiPolygon:
+		for _, p := range v {
+			if underflowFamily(box, p) {
+				return true
+			}
+		}
+	case orb.Collection:
+		for _, m := range v {
+			if underflowFamily(box, m) {
+				return true
+			}
+		}
+	}
+	return false
+}
+
+// checkCase is checkCaseRaw with the cases of a LISTED known finding excluded and counted.
 func checkCase(c Case) error {
+	if _, listed := kf.Get("C08", knownUnderflowKey); listed && underflowFamily(c.Box.Bound(), c.G.V) {
+		stats.Excluded(knownUnderflowKey)
+		lastCut, lastNil = false, false
+		return nil
+	}
+	return checkCaseRaw(c)
+}
+
+func checkCaseRaw(c Case) error {
 	box := c.Box.Bound()
 	g := c.G.V
 	tl := tolsOf(box, g)
